@@ -133,7 +133,7 @@ class Fragment(AbstractApplication):
 
             fctr.block_num(Bundle.BLOCK_NUM_PAYLOAD).setfieldval('btsd', frag_data)
 
-            glib.idle_add(self._agent.send_bundle, fctr)
+            glib.idle_add(self._agent.send_bundle, fctr, False)
 
         # internal action, not delete
         ctr.route = None
